@@ -297,7 +297,9 @@ func (r *run) mutatedStep(d *drv) bool {
 		}
 		for p := 0; p < 16 && len(usable) >= 2; p++ {
 			a, b2 := usable[d.r.Intn(len(usable))], usable[d.r.Intn(len(usable))]
-			if a.kind == b2.kind {
+			if a.kind == b2.kind || mutationFamily(a.kind) == mutationFamily(b2.kind) {
+				// two mutations of one component can cancel each other (duplicate a transaction and drop it
+				// again, a field +1 and -1): the result may be the original block, which must be accepted
 				continue
 			}
 			kind := "pair"
@@ -646,4 +648,24 @@ func (c *mutCtx) origWire(d *drv) []byte {
 		return nil
 	}
 	return data
+}
+
+// mutationFamily names the component a mutation kind changes: two mutations of one component can
+// compose to the identity (dup-quai-tx + drop-quai-tx, add-extra-valid-tx + drop-quai-tx,
+// dup-inbound-etx + drop-first-inbound-etx, add-uncle-* + drop-uncle, total-fees+1 + total-fees-1).
+func mutationFamily(kind string) string {
+	switch {
+	case strings.Contains(kind, "inbound-etx"):
+		return "inbound-etx"
+	case strings.Contains(kind, "outbound-etx"):
+		return "outbound-etx"
+	case strings.Contains(kind, "uncle"):
+		return "uncle"
+	case strings.Contains(kind, "-tx") || strings.HasPrefix(kind, "swap-"):
+		return "tx"
+	}
+	for _, sfx := range []string{"+1", "-1"} {
+		kind = strings.TrimSuffix(kind, sfx)
+	}
+	return kind
 }
